@@ -110,13 +110,22 @@ def mutated_names(body):
             nm = n.func.attr if isinstance(n.func, ast.Attribute) else getattr(n.func, 'id', None)
             for k, c in S.CONTRACTS.items():
                 if c.qual.split('.')[-1] == nm and c.mutates:
-                    for a in n.args:
+                    try:
+                        params = [p for p in _SIG_RESOLVER.signature(c)['params'] if p != 'self']
+                    except Exception:
+                        params = None
+                    for ai, a in enumerate(n.args):
+                        if params is not None and (ai >= len(params) or params[ai] not in c.mutates):
+                            continue        # only arguments bound to parameters the callee mutates in place
                         t = a
                         while isinstance(t, ast.Subscript):
                             t = t.value
                         if isinstance(t, ast.Name):
                             out.add(t.id)
     return out
+
+
+_SIG_RESOLVER = Resolver()
 
 
 def new_heap_wf(ex, st):
